@@ -386,6 +386,7 @@ func ExecCfg(c CfgCase) (res core.Result) {
 	func() {
 		defer func() {
 			if r := recover(); r != nil {
+				core.HarnessPanic(r)
 				res.Viol = core.Violate("C19/"+c.Plugin+"/"+fam+"/setup-panics", "Setup(%q) panicked: %v", c.Args, r)
 			}
 		}()
@@ -479,6 +480,7 @@ func runOne4(c *CfgCase, h handler.Handler4, wire []byte, i int) (v *core.Violat
 	stage := "handler"
 	defer func() {
 		if r := recover(); r != nil {
+			core.HarnessPanic(r)
 			v = core.Violate("C19/"+c.Plugin+"/v4/accepted-config-panics-in-"+stage, "args %q accepted by setup; request #%d: %s panicked: %v", c.Args, i, stage, r)
 		}
 	}()
@@ -543,6 +545,7 @@ func runOne6(c *CfgCase, h handler.Handler6, wire []byte, i int) (v *core.Violat
 	stage := "handler"
 	defer func() {
 		if r := recover(); r != nil {
+			core.HarnessPanic(r)
 			v = core.Violate("C19/"+c.Plugin+"/v6/accepted-config-panics-in-"+stage, "args %q accepted by setup; request #%d: %s panicked: %v", c.Args, i, stage, r)
 		}
 	}()
